@@ -177,7 +177,8 @@ def cmpTx (i : Nat) (m : BTx) (x : ImplTx) : Option String :=
   else if m.currency ≠ x.currency then some s!"tx {i}: currency model={m.currency} impl={x.currency}"
   else if !closeOpt m.rate x.rate then some s!"tx {i}: rate model={showOpt m.rate} impl={showOpt x.rate}"
   else if (if m.registered then "R" else "D") ≠ x.aff then some s!"tx {i}: affiliate model registered={m.registered} impl={x.aff}"
-  else if m.memo ≠ x.memo then some s!"tx {i}: memo model='{m.memo}' impl='{x.memo}'"
+  -- the CSV is read back through parse_tx_csv, which trims every field
+  else if m.memo.trimAscii.toString ≠ x.memo then some s!"tx {i}: memo model='{m.memo}' impl='{x.memo}'"
   else none
 
 partial def cmpTxs (i : Nat) : List BTx → List ImplTx → Option String
